@@ -631,7 +631,9 @@ class Licensing(boolean.BooleanAlgebra):
         if self.advanced_tokenizer is not None:
             return self.advanced_tokenizer
 
-        self.advanced_tokenizer = tokenizer = AdvancedTokenizer()
+        # build the tokenizer in a local variable and publish it on self only
+        # once complete, as other threads may use this Licensing concurrently
+        tokenizer = AdvancedTokenizer()
 
         add_item = tokenizer.add
         for keyword in KEYWORDS:
@@ -651,6 +653,7 @@ class Licensing(boolean.BooleanAlgebra):
                     add_item(alias, symbol)
 
         tokenizer.make_automaton()
+        self.advanced_tokenizer = tokenizer
         return tokenizer
 
     def advanced_tokenizer(self, expression):
